@@ -38,23 +38,177 @@ theorem seedMask_neg (im bkg rms : Px → Option ℝ) (s : ℝ) :
     seedMask (negImg im) (negImg bkg) rms s = seedMask im bkg rms s := by
   funext p; simp only [seedMask, negImg, snr_neg]
 
+/-! ### rank filters: the ring algorithm commutes with any relabelling that carries one comparison
+    into the other (used with `f = negation`, `≤` ↔ `≥`) -/
+
+section rank
+variable {V : Type}
+
+theorem getD_map' {A B : Type} (g : A → B) (l : List A) (i : Nat) (d : A) :
+    (l.map g).getD i (g d) = g (l.getD i d) := by
+  simp only [List.getD_eq_getElem?_getD, List.getElem?_map]
+  cases l[i]? <;> rfl
+
+def mp (f : V → V) (e : V × Nat) : V × Nat := (f e.1, e.2)
+
+theorem popBack_map (rel rel' : V → V → Bool) (f : V → V) (h : ∀ a b, rel' (f a) (f b) = rel a b)
+    (val : V) (q : List (V × Nat)) :
+    popBack rel' (f val) (q.map (mp f)) = (popBack rel val q).map (mp f) := by
+  simp only [popBack, ← List.map_reverse, List.dropWhile_map]
+  have e : ((fun e => rel' (f val) e.1) ∘ mp f) = (fun e : V × Nat => rel val e.1) := by
+    funext e; simp [mp, h]
+  rw [e]
+
+theorem qretire_map (f : V → V) (q : List (V × Nat)) (ll : Nat) :
+    qretire (q.map (mp f)) ll = (qretire q ll).map (mp f) := by
+  cases q with
+  | nil => rfl
+  | cons e r =>
+    obtain ⟨v, d⟩ := e
+    simp only [List.map_cons, mp, qretire]
+    split <;> simp [mp]
+
+theorem qpush_map (rel rel' : V → V → Bool) (f : V → V) (h : ∀ a b, rel' (f a) (f b) = rel a b)
+    (q : List (V × Nat)) (ll : Nat) (val : V) :
+    qpush rel' (q.map (mp f)) ll (f val) = (qpush rel q ll val).map (mp f) := by
+  cases q with
+  | nil => rfl
+  | cons e r =>
+    obtain ⟨fv, fd⟩ := e
+    have := popBack_map rel rel' f h val ((fv, fd) :: r)
+    simp only [List.map_cons, mp] at this
+    simp only [List.map_cons, mp, qpush, h]
+    split
+    · rfl
+    · rw [this]; simp [mp]
+
+theorem qstep_map (rel rel' : V → V → Bool) (f : V → V) (h : ∀ a b, rel' (f a) (f b) = rel a b)
+    (q : List (V × Nat)) (ll : Nat) (val : V) :
+    qstep rel' (q.map (mp f)) ll (f val) = (qstep rel q ll val).map (mp f) := by
+  simp only [qstep, qretire_map, qpush_map rel rel' f h]
+
+theorem qrun_map (rel rel' : V → V → Bool) (f : V → V) (h : ∀ a b, rel' (f a) (f b) = rel a b)
+    (l : List V) (ll : Nat) (q : List (V × Nat)) :
+    qrun rel' ll (q.map (mp f)) (l.map f) = (qrun rel ll q l).map f := by
+  induction l generalizing ll q with
+  | nil => rfl
+  | cons x r ih =>
+    simp only [List.map_cons, qrun, qstep_map rel rel' f h, ih]
+    split
+    · simp only [List.map_cons]
+      congr 1
+      cases qstep rel q ll x with
+      | nil => rfl
+      | cons e _ => rfl
+    · rfl
+
+theorem lastOf_map (f : V → V) (l : List V) (d : V) : lastOf (l.map f) (f d) = f (lastOf l d) := by
+  induction l generalizing d with
+  | nil => rfl
+  | cons x r ih => simp only [List.map_cons, lastOf, ih]
+
+theorem filter1d_map (rel rel' : V → V → Bool) (f : V → V) (h : ∀ a b, rel' (f a) (f b) = rel a b)
+    (l : List V) : filter1d rel' (l.map f) = (filter1d rel l).map f := by
+  cases l with
+  | nil => rfl
+  | cons x r =>
+    simp only [List.map_cons, filter1d, lastOf_map]
+    have := qrun_map rel rel' f h ((x :: r) ++ [lastOf r x]) 1 [(x, 3)]
+    simpa [mp] using this
+
+theorem look_map (f : V → V) (blank : V) (rows : List (List V)) (p : Px) :
+    look (f blank) (rows.map (List.map f)) p = f (look blank rows p) := by
+  simp only [look]
+  have : (rows.map (List.map f)).getD p.1 [] = (rows.getD p.1 []).map f := getD_map' (List.map f) rows p.1 []
+  rw [this, getD_map']
+
+theorem filter2d_map (rel rel' : V → V → Bool) (f : V → V) (h : ∀ a b, rel' (f a) (f b) = rel a b)
+    (blank : V) (hb : f blank = blank) (H W : Nat) (img : Px → V) :
+    filter2d rel' blank H W (fun p => f (img p)) = (filter2d rel blank H W img).map (List.map f) := by
+  simp only [filter2d, List.map_map]
+  apply List.map_congr_left
+  intro r _
+  simp only [Function.comp]
+  rw [← filter1d_map rel rel' f h, List.map_map]
+  congr 1
+  apply List.map_congr_left
+  intro c _
+  simp only [Function.comp]
+  have e : (List.range W).map (fun c => filter1d rel' ((List.range H).map (fun r => f (img (r, c)))))
+      = ((List.range W).map (fun c => filter1d rel ((List.range H).map (fun r => img (r, c))))).map (List.map f) := by
+    rw [List.map_map]
+    apply List.map_congr_left
+    intro c _
+    simp only [Function.comp]
+    rw [← filter1d_map rel rel' f h, List.map_map]; rfl
+  rw [e]
+  have := look_map f blank ((List.range W).map (fun c => filter1d rel ((List.range H).map (fun r => img (r, c))))) (c, r)
+  rw [hb] at this
+  exact this
+end rank
+
 /-! ### curvature -/
 
-theorem isPeak_neg (H W : Nat) (img : Px → ℝ) (p : Px) :
-    isPeak H W (fun q => -img q) p = isTrough H W img p := by
-  simp only [isPeak, isTrough, le_real, neg_le_neg_iff]
+/-- negation of a possibly-blank value (NaN stays NaN) -/
+def negO (v : Option ℝ) : Option ℝ := v.map (fun x => -x)
 
-theorem isTrough_neg (H W : Nat) (img : Px → ℝ) (p : Px) :
-    isTrough H W (fun q => -img q) p = isPeak H W img p := by
-  simp only [isPeak, isTrough, le_real, neg_le_neg_iff]
+theorem negImg_eq (img : Px → Option ℝ) : negImg img = fun p => negO (img p) := rfl
 
-theorem curveAt_neg (H W : Nat) (img : Px → ℝ) (p : Px) :
-    curveAt H W (fun q => -img q) p = -curveAt H W img p := by
-  simp only [curveAt, isPeak_neg, isTrough_neg]
-  cases isPeak H W img p <;> cases isTrough H W img p <;> simp
+theorem leO_neg (a b : Option ℝ) : leO (negO a) (negO b) = leO b a := by
+  cases a <;> cases b <;> simp [leO, negO, le_real]
 
-theorem curveAtPinned_neg (H W : Nat) (img : Px → ℝ) (p : Px) :
-    curveAtPinned H W (fun q => -img q) p =
+theorem eqO_neg (a b : Option ℝ) : eqO (negO a) (negO b) = eqO a b := by
+  simp only [eqO, leO_neg, Bool.and_comm]
+
+theorem relMax_neg (a b : Option ℝ) : relMax (negO a) (negO b) = relMin a b := by
+  simp only [relMax, relMin, leO_neg]
+
+theorem relMin_neg (a b : Option ℝ) : relMin (negO a) (negO b) = relMax a b := by
+  simp only [relMax, relMin, leO_neg]
+
+/-- the maximum filter of the negated window is the negated minimum filter, NaN pixels included -/
+theorem maxFilter_neg (H W : Nat) (img : Px → Option ℝ) :
+    maxFilter H W (negImg img) = (minFilter H W img).map (List.map negO) :=
+  filter2d_map relMin relMax negO relMax_neg none rfl H W img
+
+theorem minFilter_neg (H W : Nat) (img : Px → Option ℝ) :
+    minFilter H W (negImg img) = (maxFilter H W img).map (List.map negO) :=
+  filter2d_map relMax relMin negO relMin_neg none rfl H W img
+
+theorem look_negO (rows : List (List (Option ℝ))) (p : Px) :
+    look none (rows.map (List.map negO)) p = negO (look none rows p) :=
+  look_map negO none rows p
+
+theorem isPeak_neg (H W : Nat) (img : Px → Option ℝ) (p : Px) :
+    isPeak H W (negImg img) p = isTrough H W img p := by
+  simp only [isPeak, isTrough, maxFilter_neg, look_negO]
+  rw [negImg_eq, eqO_neg]
+
+theorem isTrough_neg (H W : Nat) (img : Px → Option ℝ) (p : Px) :
+    isTrough H W (negImg img) p = isPeak H W img p := by
+  simp only [isPeak, isTrough, minFilter_neg, look_negO]
+  rw [negImg_eq, eqO_neg]
+
+theorem curveRows_neg (H W : Nat) (img : Px → Option ℝ) :
+    curveRows H W (negImg img) = (curveRows H W img).map (List.map (fun z => -z)) := by
+  simp only [curveRows, maxFilter_neg, minFilter_neg, look_negO, List.map_map]
+  apply List.map_congr_left
+  intro r _
+  simp only [Function.comp, List.map_map]
+  apply List.map_congr_left
+  intro c _
+  simp only [Function.comp, negImg_eq, eqO_neg]
+  cases eqO (look none (maxFilter H W img) (r, c)) (img (r, c)) <;>
+    cases eqO (look none (minFilter H W img) (r, c)) (img (r, c)) <;> simp
+
+theorem curveAt_neg (H W : Nat) (img : Px → Option ℝ) (p : Px) :
+    curveAt H W (negImg img) p = -curveAt H W img p := by
+  simp only [curveAt, curveRows_neg]
+  have := look_map (fun z : Int => -z) 0 (curveRows H W img) p
+  simpa using this
+
+theorem curveAtPinned_neg (H W : Nat) (img : Px → Option ℝ) (p : Px) :
+    curveAtPinned H W (negImg img) p =
       if isPeak H W img p then 1 else if isTrough H W img p then -1 else 0 := by
   simp only [curveAtPinned, isPeak_neg, isTrough_neg]
 
